@@ -91,7 +91,8 @@ structure Img where
   cls : Cls
   dt : DT               -- header data dtype (what the next save writes)
   tag : Nat             -- a free header field (`descrip` / `tr`)
-  aff : Nat
+  aff : Nat             -- img.affine
+  hdrAff : Nat          -- affine the HEADER fields (sform/qform, MGH Mdc/Pxyz_c) currently encode
   data : Nat            -- GHOST: data id the proxy decoded when the image was loaded (not used by `step`)
   src : Path            -- proxy.file_like
   srcDt : DT            -- proxy spec: dtype ...
@@ -187,10 +188,15 @@ def writeTo (orig : Bool) (fs : FS) (im : Img) (q : Path) : Out × FS :=
         let c : Content := { data := d, aff := im.aff, dt := dtO, scaled := outScaled im q, tag := tagO }
         (.saved c, fs1.set q (some (.intact c)))
 
-/-- `nib.save(img, q)`: rebinding of `file_map` happens only when no class conversion was needed -/
+/-- `nib.save(img, q)`: rebinding of `file_map` happens only when no class conversion was needed; in that case
+    `update_header()` also reconciles the image's OWN header with `img.affine` in place.  A converting save works on
+    `Klass.from_image(img)` = `Klass(img.dataobj, img.affine, from_header(img.header))` — a COPY of the header that
+    `update_header()` reconciles with `img.affine`; the original header keeps whatever was edited into it.  Either
+    way the file gets `im.aff` (spatialimages.py:532-559, 591-612). -/
 def save (orig : Bool) (fs : FS) (im : Img) (q : Path) : Out × FS × Img :=
   match writeTo orig fs im q with
-  | (.saved c, fs') => (.saved c, fs', if q.cls = im.cls then { im with fname := some q } else im)
+  | (.saved c, fs') =>
+      (.saved c, fs', if q.cls = im.cls then { im with fname := some q, hdrAff := im.aff } else im)
   | (o, fs') => (o, fs', im)
 
 /-- `img.get_fdata()` -/
@@ -218,7 +224,7 @@ def toBytes (fs : FS) (im : Img) : Out × Img :=
     | some d =>
       (.bytes { data := d, aff := im.aff, dt := im.dt, tag := im.tag,
                 scaled := im.cls != .mgh && !im.dt.isFloat && im.arrFloat },
-       { im with fname := none })
+       { im with fname := none, hdrAff := im.aff })
 
 /-- dtypes an MGH header accepts (`MGHHeader.set_data_dtype`) -/
 def mghOk : DT → Bool
@@ -230,7 +236,8 @@ inductive Op where
   | fdata
   | uncache
   | edit (k : Nat)
-  | setAff (k : Nat)
+  | setAff (k : Nat)     -- image API `img.set_sform/set_qform` (MGH: `img.affine[:] = A`): changes img.affine
+  | hdrEdit (k : Nat)    -- `img.header.set_sform(B)` / `set_sform(None,0)+set_qform(B)` / MGH Mdc,Pxyz_c: header only
   | setDt (dt : DT)
   | save (q : Path)
   | toBytes
@@ -239,7 +246,7 @@ inductive Op where
 def load (fs : FS) (p : Path) (mm : Bool) : Option Img :=
   match fs p with
   | some (.intact c) =>
-      some { cls := p.cls, dt := c.dt, tag := c.tag, aff := c.aff, data := c.data, src := p, srcDt := c.dt,
+      some { cls := p.cls, dt := c.dt, tag := c.tag, aff := c.aff, hdrAff := c.aff, data := c.data, src := p, srcDt := c.dt,
              srcScaled := c.scaled, mm := mm, fname := some p, cache := .none }
   | _ => none
 
@@ -260,7 +267,10 @@ def step (orig : Bool) (s : St) : Op → Out × St
       | none => (.bad, s)
   | .uncache => withImg s fun im => (.unit, { s with img := some { im with cache := .none } })
   | .edit k => withImg s fun im => (.unit, { s with img := some { im with tag := k } })
-  | .setAff k => withImg s fun im => (.unit, { s with img := some { im with aff := k } })
+  | .setAff k => withImg s fun im =>
+      -- NIfTI: the header is set and img.affine re-read from it; MGH: only the array `img.affine` is overwritten
+      (.unit, { s with img := some (if im.cls = .mgh then { im with aff := k } else { im with aff := k, hdrAff := k }) })
+  | .hdrEdit k => withImg s fun im => (.unit, { s with img := some { im with hdrAff := k } })
   | .setDt dt => withImg s fun im =>
       if im.cls = .mgh ∧ mghOk dt = false then (.dtErr, s)
       else (.dtOk, { s with img := some { im with dt := dt } })
